@@ -243,11 +243,12 @@ class RealContainers:
         if op == "in":
             return f"b {1 if int(a[1]) in list(q._pq) else 0}"
         if op == "drain":
-            c = _copy.deepcopy(q)
-            c._get_priority = q._get_priority
+            # non-destructive: drain a copy of the underlying priority queue (popleft on the real
+            # object would touch the counters; the object holds a lock and cannot be deep-copied)
+            c = q._pq.copy()
             out = []
             while c:
-                out.append(c.popleft())
+                out.append(c.popitem()[1])
             return "list " + ",".join(map(str, out))
         if op == "prios":
             c = q._pq.copy()
